@@ -85,7 +85,7 @@ def check_list(sched, all_jobs, where):
                      % (lab, num_of[lab], r, num_of[str(r)], where))
 
 
-def graph_harness(name, n, perm_mode, selfloops, placements, mutate, empty_node=False):
+def graph_harness(name, n, perm_mode, selfloops, placements, mutate, empty_node=False, history=False):
     def fn(api):
         jobs = make_jobs(api, n, perm_mode)
         if empty_node:
@@ -107,6 +107,18 @@ def graph_harness(name, n, perm_mode, selfloops, placements, mutate, empty_node=
         if nedges:
             api.note("nt")
         top, level = _place(place, jobs)
+        if history:
+            if api.flag("verbose"):
+                top.verbose = True
+                level.verbose = True
+            if api.flag("abandoned_scan"):
+                # a caller looks at the first job of the order and drops the generator
+                try:
+                    g = level.topological_order()
+                    next(g)
+                    del g
+                except (StopIteration, Exception):
+                    pass
         _verify(top, level, jobs, req, place)
         if mutate:
             pairs = [(a, b) for a in jobs for b in jobs if a is not b]
@@ -166,7 +178,10 @@ def _place(place, jobs):
 
 def _verify(top, level, jobs, req, place):
     acyc = check_order(level, jobs, req, place)
-    got = top.check_cycles()
+    try:
+        got, _out = capture(top.check_cycles)
+    except Exception as e:
+        fail("C15: check_cycles() raised %s: %s (%s)" % (type(e).__name__, e, place), _desc(jobs, req))
     want = acyc
     if place.startswith("pure-over-nested"):
         want = True         # a PureScheduler only looks at its own level
@@ -178,7 +193,7 @@ def _verify(top, level, jobs, req, place):
         everybody = [j for j in everybody if j is not top]
         check_list(top, everybody, place)
     # asking twice gives the same answer (marks are reset)
-    if top.check_cycles() is not got:
+    if capture(top.check_cycles)[0] is not got:
         fail("C15: check_cycles() answers differently the second time (%s)" % place, _desc(jobs, req))
 
 
@@ -190,6 +205,8 @@ def harnesses(tier):
             graph_harness("n4-identity-order", 4, "id", False, ["pure", "nested1"], False),
             graph_harness("n3-with-an-empty-nested-scheduler", 3, "free", False, ["pure", "sched", "nested2+tail"],
                           False, empty_node=True),
+            graph_harness("n3-verbose-or-after-an-abandoned-scan", 3, "two", True, ["pure", "sched", "nested1"],
+                          False, history=True),
         ]
     return [
         graph_harness("n3-all-orders-selfloops-mutation", 3, "free", True,
